@@ -429,3 +429,28 @@ def sectors_for_clusters(bps, bpc, clusters, start, span=4000, fat="-", fats="-"
         if n == clusters:
             return start + i, (12 if n < 4085 else 16 if n < 65525 else 32)
     return None
+
+
+def spare_sector_sectors(bps, bpc, start, want_bits, span=6000, fats="2", root="-", variant="default"):
+    """smallest total sector count >= start for which the library's own format yields a volume of the wanted width whose FAT has
+    at least one whole SECTOR more than its entries need (tables with unused tail sectors), or None"""
+    lines = ["%s %d %s %s %s %s - - -" % (bps, start + i, bpc, want_bits, root, fats) for i in range(span)]
+    out = exec_raw(["fmtbs"], "\n".join(lines) + "\n", variant=variant).split("\n")[:-1]
+    for i, o in enumerate(out):
+        t = o.split(" ")
+        if t[0] != "ok":
+            continue
+        b = bytes.fromhex(t[-1])
+        bps_ = int.from_bytes(b[11:13], "little"); spc = b[13]; res = int.from_bytes(b[14:16], "little"); nf = b[16]
+        rt = int.from_bytes(b[17:19], "little")
+        ts = int.from_bytes(b[19:21], "little") or int.from_bytes(b[32:36], "little")
+        spf = int.from_bytes(b[22:24], "little") or int.from_bytes(b[36:40], "little")
+        rds = (rt * 32 + bps_ - 1) // bps_
+        clusters = (ts - res - nf * spf - rds) // spc
+        bits = 12 if clusters < 4085 else 16 if clusters < 65525 else 32
+        if bits != want_bits:
+            continue
+        needed = ((clusters + 2) * bits + 7) // 8
+        if spf * bps_ - needed >= bps_:
+            return start + i
+    return None
